@@ -109,7 +109,7 @@ Proof. intros E M. unfold call_function. rewrite E, M. reflexivity. Qed.
 Theorem registered_function_resolves h name args : assoc_text name (h_funs h) = None -> mem_text name (h_registry h) = true ->
   fst (call_function h name args) <> RRaise ENAME.
 Proof.
-  intros E M. unfold call_function. rewrite E, M. destruct (builtin name args) as [[v|e| |]|]; cbn; discriminate.
+  intros E M. unfold call_function. rewrite E, M. destruct (builtin name args) as [[v|e| |]|]; try destruct (h_oracle h name args) as [[v'|e'| |]|]; cbn; discriminate.
 Qed.
 
 (* ---------- expressions: an unknown name anywhere never yields a value ---------- *)
@@ -208,7 +208,7 @@ Proof.
   unfold call_function. destruct (assoc_text name (h_funs h)) as [b|].
   - destruct b; cbn; try discriminate; try reflexivity. destruct args; cbn; [discriminate|reflexivity].
   - destruct (mem_text name (h_registry h)); [|cbn; discriminate].
-    destruct (builtin name args) as [[w|e| |]|]; cbn; try discriminate; reflexivity.
+    destruct (builtin name args) as [[w|e| |]|]; try destruct (h_oracle h name args) as [[w'|e'| |]|]; cbn; try discriminate; reflexivity.
 Qed.
 Lemma xvals_events h l vs : Forall (fun e => forall v, fst (xval h e) = ROk v -> map ref_of (snd (xval h e)) = refs e) l ->
   fst (xvals (xval h) l) = ROk vs -> map ref_of (snd (xvals (xval h) l)) = flat_map refs l.
@@ -371,7 +371,7 @@ Proof. split; vm_compute; reflexivity. Qed.
    with x1y set to 5 the formula  x1y  is a syntax error; _1 is lexed as the variable _ followed by the number 1 *)
 Lemma name_not_one_token_refuted :
   let h := {| h_vars := [([120;49;121], VInt 5); ([95;49], VInt 6)]; h_funs := []; h_cells := []; h_ranges := []; h_registry := [];
-              h_varset := []; h_funset := [] |} in
+              h_varset := []; h_funset := []; h_oracle := fun _ _ => None |} in
   lex [120;49;121] = LexOk [Tok T_RELATIVE_CELL [120;49]; Tok T_VARIABLE [121]] /\
   fst (parse_formula h [120;49;121]) = PError EERROR /\
   lex [95;49] = LexOk [Tok T_VARIABLE [95]; Tok T_NUMBER [49]] /\ fst (parse_formula h [95;49]) = PError EERROR.
